@@ -227,6 +227,68 @@ def precomp_ok(ring, p, op):
     return p.bit_length() <= lim
 
 
+OBTAIN_MODES = {"copy": "copy construction from a ring that is then destroyed",
+                "asg": "assignment over a ring of ANOTHER modulus",
+                "asgd": "assignment over a default-constructed ring"}
+
+
+def reduce_operand(ring, p, x):
+    """a non-canonical value congruent to x that the element type represents exactly (x itself if there is none)"""
+    sr = storage_range(ring)
+    if sr is None:
+        if ring in ("f_f", "f_d", "bf", "ef"):
+            sr = (-(1 << 24), 1 << 24)
+        elif ring in ("d_d", "bd", "ed"):
+            sr = (-(1 << 53), 1 << 53)
+        elif ring == "bi32":
+            sr = (-(1 << 31) + 1, (1 << 31) - 1)
+        elif ring == "bi64":
+            sr = (-(1 << 63) + 1, (1 << 63) - 1)
+        elif ring.startswith("ru"):
+            sr = (0, (1 << (1 << int(ring[2]))) - 1)
+        elif ring == "ri7_7":
+            sr = (0, (1 << 127) - 1)
+        elif ring in LOG_RINGS:
+            sr = (-(1 << 31) + 1, (1 << 31) - 1)
+        else:
+            sr = (0, 1 << 400)
+    for v in (x + 3 * p, x + p, x - p):
+        if sr[0] <= v <= sr[1]:
+            return v
+    return x
+
+
+def gen_obtained(rng, ring, p, cases, n_rand):
+    """the full operation set on boundary operands for a ring object obtained by copy / assignment (every cached field of the
+    ring -- _pc, _halfp, _mhalfp, _dinvp, _invp, _negp, _lp, mOne, the Log16 tables -- must have been carried over)"""
+    lo, hi = elem_range(ring, p)
+    for mode in OBTAIN_MODES:
+        rm = ring + "@" + mode
+        trip = [[hi, hi, hi], [hi, hi, lo], [lo, hi, 1 if hi >= 1 else 0], [1 if hi >= 1 else 0, hi, hi]] + [operands(rng, ring, p, 3) for _ in range(n_rand)]
+        for t in trip:
+            for op in OPS3:
+                cases.append((rm, p, op, list(t)))
+            for op in OPS2:
+                cases.append((rm, p, op, list(t[:2])))
+            for op in OPS1:
+                cases.append((rm, p, op, [t[0]]))
+            cases.append((rm, p, "isUnit", [t[0]]))
+            ro = reduce_operand(ring, p, t[0])
+            cases.append((rm, p, "reduce1", [ro]))
+            cases.append((rm, p, "reduce2", [ro]))
+        for _ in range(2):
+            u = unit_operand(rng, ring, p)
+            for op in UNIT1:
+                cases.append((rm, p, op, [u]))
+            for op in UNIT2:
+                cases.append((rm, p, op, [operands(rng, ring, p, 1)[0], u]))
+        if ring in INT_RINGS:
+            for op in PRECOMP_OPS:
+                if precomp_ok(ring, p, op):
+                    cases.append((rm, p, op, [hi, hi]))
+                    cases.append((rm, p, op, [hi, max(0, hi - 1)]))
+
+
 PRECOMP_OPS = ("mulpp", "mulpb", "mulpb2")
 
 
@@ -499,6 +561,10 @@ def main(tier, replay=None):
                 ms = sorted({prevprime(m) for m in ms if m >= 2} | {2, 3, 5, 7, prevprime(hi)})
             for p in ms:
                 gen_cases(rng, ring, p, per, cases)
+            # every way of obtaining the ring object, on a few moduli of each ring (quick: 4, thorough: 16)
+            sel = [ms[-1], ms[0]] + [rng.choice(ms) for _ in range(2 if quick else 14)]
+            for p in ([m for m in ms if m == hi][:1] + sel):
+                gen_obtained(rng, ring, p, cases, 1 if quick else 3)
         for ring in INT_RINGS:
             gen_precomp_directed(rng, ring, info[ring][0], info[ring][1], quick, cases)
         for ring, n in (("u16_u32", 160), ("i16_i32", 60), ("u16_i32", 40), ("i16_u32", 40)):
@@ -516,7 +582,7 @@ def main(tier, replay=None):
     if rc != 0 or len(iout) != len(cases):
         chk.broke("implementation harness failed (rc=%s, %d/%d lines)" % (rc, len(iout), len(cases)), ierr[-2000:])
         return chk.finish()
-    mlines = [model_line(r, p, op, a) for r, p, op, a in cases]
+    mlines = [model_line(r.split("@")[0], p, op, a) for r, p, op, a in cases]
     midx = [i for i, m in enumerate(mlines) if m is not None]
     mout = {}
     if drv and midx:
@@ -536,6 +602,7 @@ def main(tier, replay=None):
         chk.count((ring, p, op, tuple(a)), nontrivial=any(abs(x) > 1 for x in a))
         if i % 4999 == 0:
             chk.sample({"case": case, "impl": got})
+        full_ring, ring = ring, ring.split("@")[0]        # "<ring>@<how the ring object was obtained>"
         if op == "gcdext":
             g = math.gcd(a[0], a[1])
             t = got.split()
@@ -554,8 +621,9 @@ def main(tier, replay=None):
                     chk.fail_input(KNOWN_BALNEG_SITE, KNOWN_BALNEG_KLASS, case, exp, got,
                                    "ModularBalanced negation of p/2 for even p leaves the canonical range [-(p/2)+1, p/2]")
                 else:
-                    chk.fail_input("%s::%s" % (ring, op), "p=%d" % p, case, exp, got,
-                                   "implementation differs from exact arithmetic mod p")
+                    chk.fail_input("%s::%s" % (full_ring, op), "p=%d" % p, case, exp, got,
+                                   "implementation differs from exact arithmetic mod p"
+                                   + (" (ring object obtained by %s)" % OBTAIN_MODES[full_ring.split("@")[1]] if "@" in full_ring else ""))
         if i in mout:
             mg = mout[i].strip()
             if mg != got and nbroke < 20 and (exp is None or got == exp or op == "gcdext"):   # impl != oracle is already a failing input
@@ -581,8 +649,12 @@ def main(tier, replay=None):
     chk.cov["traces_validated_against_impl"] = len(mout)
     chk.cov["rings"] = len(ALL_RINGS)
     byring = {}
+    bymode = {}
     for ring, p, op, a in cases:
-        byring[ring] = byring.get(ring, 0) + 1
+        byring[ring.split("@")[0]] = byring.get(ring.split("@")[0], 0) + 1
+        m = ring.split("@")[1] if "@" in ring else "constructor"
+        bymode[m] = bymode.get(m, 0) + 1
+    chk.cov["distribution_by_way_of_obtaining_the_ring"] = bymode
     chk.cov["distribution_by_ring"] = byring
     byop = {}
     for ring, p, op, a in cases:
